@@ -75,6 +75,9 @@ type c09Plan struct {
 	MidFrac float64 `json:"mid_frac,omitempty"`
 	ErrAt   int     `json:"err_at,omitempty"` // scripted failure at this point
 	Clean   bool    `json:"clean,omitempty"`  // real RunSubprocessJob, no wrapper
+	// FailInputDeletes: every input delete of the job fails (storage fault), so
+	// the job keeps its manifest for recovery.
+	FailInputDeletes bool `json:"fail_input_deletes,omitempty"`
 }
 
 type c09Step struct {
@@ -85,6 +88,12 @@ type c09Step struct {
 	MidFrac float64   `json:"mid_frac,omitempty"`
 	Late    bool      `json:"late,omitempty"`
 	Plan    []c09Plan `json:"plan,omitempty"`
+	// Reuse: the cycle runs on the Manager of the previous cycle step (a
+	// long-lived server: its ManifestManager cache survives between cycles).
+	Reuse bool `json:"reuse,omitempty"`
+	// ParentFailDeletes: data-file deletes issued by the parent (manifest
+	// recovery) fail during this cycle - the storage fault persists.
+	ParentFailDeletes bool `json:"parent_fail_deletes,omitempty"`
 }
 
 type c09Case struct {
@@ -243,6 +252,7 @@ func genC09Script(t *rapid.T, c *c09Case) {
 		s := c09Step{Late: rapid.Bool().Draw(t, "late")}
 		if rapid.IntRange(0, 2).Draw(t, "kind") == 0 {
 			s.Kind = "cycle"
+			s.Reuse = rapid.Bool().Draw(t, "reuse")
 			np := rapid.IntRange(1, 3).Draw(t, "nplans")
 			for j := 0; j < np; j++ {
 				p := c09Plan{}
@@ -358,8 +368,10 @@ type c09World struct {
 	history          []string
 	nonTrivial       bool
 	excluded         map[string]int
-	stepCrashed      []bool // per script step: did a crash/kill fire
-	stepSkipped      []int  // per script step: crash points suppressed by a known-finding exclusion
+	liveMgr          *Manager            // long-lived Manager of "cycle" steps with Reuse
+	liveFault        *storage.VerifFault // its storage wrapper (never crashes; scripted delete faults only)
+	stepCrashed      []bool              // per script step: did a crash/kill fire
+	stepSkipped      []int               // per script step: crash points suppressed by a known-finding exclusion
 }
 
 func (w *c09World) logf(format string, args ...any) {
@@ -562,6 +574,7 @@ type c09StepResult struct {
 }
 
 func (w *c09World) inproc(s c09Step) (res c09StepResult, err error) {
+	w.liveMgr, w.liveFault = nil, nil // the node died / restarted
 	lb, err := storage.NewLocalBackend(w.root, zerolog.Nop())
 	if err != nil {
 		return res, err
@@ -682,7 +695,20 @@ func (w *c09World) cycle(s c09Step) (reports []c09ChildReport, err error) {
 		os.Unsetenv("VERIF_C09_REPORT")
 	}()
 	c09SetClock(s.Late)
-	mgr := w.manager(lb)
+	if !s.Reuse || w.liveMgr == nil {
+		w.liveFault = storage.NewVerifFault(lb, storage.VerifPanic, 0)
+		w.liveMgr = w.manager(w.liveFault)
+	}
+	w.liveFault.FailOp = nil
+	if s.ParentFailDeletes {
+		w.liveFault.FailOp = func(p storage.VerifPoint) error {
+			if p.Op == "Delete" && strings.HasSuffix(p.Path, ".parquet") {
+				return fmt.Errorf("verif injected: delete refused")
+			}
+			return nil
+		}
+	}
+	mgr := w.liveMgr
 	if _, cerr := mgr.RunCompactionCycle(context.Background()); cerr != nil {
 		w.logf("cycle error: %v", cerr)
 	}
@@ -740,7 +766,7 @@ func c09ChildMain() {
 		}
 	}
 	var result *SubprocessJobResult
-	if plan == nil || plan.Clean || (plan.CrashAt == 0 && plan.ErrAt == 0 && plan.Sym == "") {
+	if plan == nil || plan.Clean || (plan.CrashAt == 0 && plan.ErrAt == 0 && plan.Sym == "" && !plan.FailInputDeletes) {
 		result, err = RunSubprocessJob(&cfg)
 		report(c09ChildReport{})
 	} else {
@@ -773,6 +799,14 @@ func c09RunFaultyJob(cfg *SubprocessJobConfig, plan *c09Plan, report func(c09Chi
 	}
 	if plan.ErrAt > 0 {
 		fb.ErrAt = map[int]error{plan.ErrAt: fmt.Errorf("verif injected storage error")}
+	}
+	if plan.FailInputDeletes {
+		fb.FailOp = func(p storage.VerifPoint) error {
+			if p.Op == "Delete" && !storage.VerifIsManifestPath(p.Path) {
+				return fmt.Errorf("verif injected: delete refused")
+			}
+			return nil
+		}
 	}
 	nfiles := len(cfg.Files)
 	fb.Skip = func(p storage.VerifPoint, tr []storage.VerifPoint) bool {
@@ -1216,6 +1250,57 @@ func TestVerifC09_EnumKill(t *testing.T) {
 		}
 	}
 	verifkit.Note("enum_kill_truncated_by_exclusion", truncated)
+}
+
+// TestVerifC09_Scenarios: small directed histories on ONE long-lived Manager,
+// where state the Manager keeps between tiers / cycles (its ManifestManager's
+// cache of manifest-tracked files) matters.
+func TestVerifC09_Scenarios(t *testing.T) {
+	db := c09Duck(t)
+	seed := c09Seed()
+	type sc struct {
+		name   string
+		tier   string
+		n      int
+		script []c09Step
+	}
+	scs := []sc{
+		// hourly job of a 2-file hour (too small to split) is killed after its
+		// upload; the daily tier of the SAME cycle then looks at the same files:
+		// the manifest the dead job left must keep inputs and output out of it
+		{"kill-after-upload-then-daily-tier", "both", 2, []c09Step{{Kind: "cycle", Plan: []c09Plan{{Sym: "first-input-delete"}}}}},
+		// a storage fault refuses data-file deletes: the job keeps its manifest,
+		// the next cycle's recovery cannot settle it either; inputs and output
+		// stay manifest-tracked and must not be compacted together
+		{"persistent-delete-fault", "hourly", 3, []c09Step{
+			{Kind: "cycle", Plan: []c09Plan{{FailInputDeletes: true}}},
+			{Kind: "cycle", Reuse: true, Late: true, ParentFailDeletes: true, Plan: []c09Plan{{FailInputDeletes: true}}},
+			{Kind: "cycle", Reuse: true, Late: true}}},
+		// same, the second cycle follows a kill instead of a delete fault
+		{"kill-then-reused-manager", "hourly", 2, []c09Step{
+			{Kind: "cycle", Plan: []c09Plan{{Sym: "first-input-delete"}}},
+			{Kind: "cycle", Reuse: true, Late: true, ParentFailDeletes: true},
+			{Kind: "cycle", Reuse: true, Late: true}}},
+	}
+	for si, x := range scs {
+		for _, mode := range []string{"plain", "tags"} {
+			if mode == "tags" && verifkit.Tier() == "quick" && si != 0 {
+				continue
+			}
+			c := c09FixedCase(seed*13+si, x.n, mode, x.tier)
+			if x.tier == "both" {
+				for i, f := range c.Files { // one hour only: the plan's first child is this hour's job
+					f.Hour = 14
+					f.Name = fmt.Sprintf("%s_20240305_14%02d%02d_%09d.parquet", c09Meas, i/60, i%60, 100000+i)
+					f.data = nil
+				}
+			}
+			c.Script = x.script
+			c.CheapFinal = true
+			verifkit.Class("scenario-" + x.name)
+			c09Run(t, c, db, fmt.Sprintf("scenario/%s/%s", x.name, mode))
+		}
+	}
 }
 
 // TestVerifC09_Random: random partitions x random scripts.
